@@ -836,6 +836,19 @@ func sliceElemCtorCalls(s ssa.Value, dv *dev, seen map[ssa.Value]bool) ([]*ssa.C
 				if _, isDbg := r.(*ssa.DebugRef); isDbg {
 					continue
 				}
+				if _, isSl := r.(*ssa.Slice); isSl {
+					continue // events[:count]
+				}
+				if st, isSt := r.(*ssa.Store); isSt && st.Addr == ssa.Value(x) {
+					// the whole array assigned at once (an array parameter spilled, the result of a planning helper)
+					cs, ok := sliceElemCtorCalls(st.Val, dv, seen)
+					if !ok {
+						return nil, false
+					}
+					out = append(out, cs...)
+					n++
+					continue
+				}
 				return nil, false
 			}
 			for _, rr := range *ia.Referrers() {
@@ -892,10 +905,37 @@ func sliceElemCtorCalls(s ssa.Value, dv *dev, seen map[ssa.Value]bool) ([]*ssa.C
 			out = append(out, cs...)
 		}
 		return out, true
+	case *ssa.Extract:
+		// one of several results of a planning helper: (events [2]Event, count int)
+		call, ok := x.Tuple.(*ssa.Call)
+		if !ok {
+			return nil, false
+		}
+		f := call.Call.StaticCallee()
+		if f == nil || f.Blocks == nil || !dv.p.OwnedFunc(f) {
+			return nil, false
+		}
+		var out []*ssa.Call
+		nret := 0
+		for _, b := range f.Blocks {
+			if ret, ok := b.Instrs[len(b.Instrs)-1].(*ssa.Return); ok && b != f.Recover && x.Index < len(ret.Results) {
+				cs, ok := sliceElemCtorCalls(ret.Results[x.Index], dv, seen)
+				if !ok {
+					return nil, false
+				}
+				out = append(out, cs...)
+				nret++
+			}
+		}
+		return out, nret > 0
 	case *ssa.Slice:
 		arr, ok := x.X.(*ssa.Alloc)
-		if !ok || x.Low != nil || x.High != nil {
+		if !ok {
 			return nil, false
+		}
+		if x.Low != nil || x.High != nil {
+			// a part of a local array: its elements are among the array's
+			return sliceElemCtorCalls(arr, dv, seen)
 		}
 		var out []*ssa.Call
 		n := 0
